@@ -1212,6 +1212,10 @@ impl<'a> GeneratorState<'a> {
                         self.protected = true;
                         self.asm(STA, &ExprType::Absolute(name.clone(), true, offset), pos, false)?;
                         self.protected = false;
+                        if !matches!(self.flags, FlagsState::A | FlagsState::X | FlagsState::Y) {
+                            // The flags may have described the previous content of the cell strobed
+                            self.flags = FlagsState::Unknown;
+                        }
                         Ok(())
                     }
                     _ => Err(self
